@@ -7,6 +7,7 @@ package runtime
 import (
 	"unsafe"
 
+	c "github.com/goplus/llgo/runtime/internal/clite"
 	"github.com/goplus/llgo/runtime/internal/clite/sync/atomic"
 	"github.com/goplus/llgo/runtime/internal/clite/time"
 	"github.com/goplus/llgo/runtime/internal/runtime/math"
@@ -110,10 +111,16 @@ const (
 
 func memclrHasPointers(ptr unsafe.Pointer, n uintptr) {
 	// bulkBarrierPreWrite(uintptr(ptr), 0, n)
-	// memclrNoHeapPointers(ptr, n)
+	memclrNoHeapPointers(ptr, n)
 }
 
+// memclrNoHeapPointers clears n bytes starting at ptr. mapclear relies on it
+// (through makeBucketArray) to wipe the reused bucket array, including the
+// overflow links; mapdelete relies on it to zero the deleted element.
 func memclrNoHeapPointers(ptr unsafe.Pointer, n uintptr) {
+	if n != 0 {
+		c.Memset(ptr, 0, n)
+	}
 }
 
 func fatal(s string) {
